@@ -17,6 +17,11 @@ def run(ctx):
     count = 250 if ctx.tier == "quick" else 5000
     cases = answers.load_corpus("C02")
     cases += answers.gen_cases(ctx, count, (1, 6), (1, 7), [False])
+    if ctx.tier == "thorough":
+        ex = answers.exhaustive_cases(ctx, [False])
+        ctx.notes.append(f"exhaustive small scope: all one-conditional bases over the 16 truth tables on 2 atoms and all two-conditional bases "
+                         f"over a pool of 36 conditionals, each against all 256 queries ({len(ex)} chunks of 64 queries)")
+        cases += ex
     answers.run_cases(ctx, cases, CONFIGS, nontrivial)
 
 
